@@ -23,7 +23,7 @@ RULE = ('each case = one endpoint (either role) brought to a random connection s
         'MAX_FRAME_SIZE (raised before the streams exist, lowered after) and other limits between the calls; non-trivial = at least one raising call judged; distinct = hash of the '
         'call list with outcomes')
 MINIMA = {'calls_judged': 50000, 'raising_calls_output_checked': 10000, 'lookup_forgotten_judged': 500,
-          'lookup_never_used_judged': 500, 'documented_range_errors': 500, 'setups_with_unacknowledged_data': 500, 'setups_with_frame_size_limit_raised_and_lowered': 300}
+          'lookup_never_used_judged': 500, 'documented_range_errors': 500, 'setups_with_unacknowledged_data': 500, 'settings_values_beyond_32_bits': 300, 'setups_with_frame_size_limit_raised_and_lowered': 300}
 BIG = [2 ** 31 - 1, 2 ** 31, 2 ** 31 + 1, 2 ** 32, 2 ** 64]
 
 
@@ -239,9 +239,16 @@ def run_case(idx, rng, tier, rep):
                 rep.violation('C29:out-of-range-argument-accepted:close_connection', 'close_connection(%d, last=%r) succeeded' % (code, last), wit(h, op))
         elif op == 'update_settings':
             k = rng.choice([1, 2, 3, 4, 5, 6, 8, 9, 0xffff])
-            v = rng.choice([0, 1, 2, 100, 16384, 65535, 2 ** 24 - 1, 2 ** 24, 2 ** 31 - 1, 2 ** 31, 2 ** 32 - 1])
-            res = t.call('update_settings', {k: v})
+            v = rng.choice([0, 1, 2, 100, 16384, 65535, 2 ** 24 - 1, 2 ** 24, 2 ** 31 - 1, 2 ** 31, 2 ** 32 - 1, 2 ** 32, -1, 2 ** 64])
+            d = {k: v}
+            if rng.random() < 0.2:
+                d[rng.choice([3, 6, 0x99])] = rng.choice([7, 2 ** 32, -1])
+            res = t.call('update_settings', d)
             judge(op, res, False)
+            if any(not 0 <= x <= 2 ** 32 - 1 for x in d.values()):
+                rep.count('settings_values_beyond_32_bits')
+                if res.exc is None and conn_is_open:
+                    rep.violation('C29:unserialisable-setting-accepted', 'update_settings(%r) returned normally' % (d,), wit(h, op))
         elif op == 'altsvc':
             mode = rng.choice(['origin', 'stream', 'both', 'neither'])
             field = b'h2=":443"'
